@@ -417,3 +417,30 @@ CHECKS = {
         floors={"kind:direct": ("TestTaskLife", 0.25), "kind:basic": ("TestTaskLife", 0.25), "kill": ("TestTaskLife", 0.5), "child-forks": ("TestTaskLife", 0.25), "child-ignores-signals": ("TestTaskLife", 0.1)},
     ),
 }
+
+# Additions of the fourth campaign (DESIGN.md section 14), appended to the rule texts above.
+_ADDENDA = {
+    "C02": (" Slow shard also: acknowledged late but in time (105 s after CONFIGURE, whose response timeout is 120 s; 60 s after the other commands) "
+            "counts as ok; TestFixedLate runs that shape at CONFIGURE and START; TestFixedQueued: a silent critical task of one environment queued "
+            "behind a silent task of another (verdict after about 180 s): both requests fail, neither environment shows RUNNING."),
+    "C06": (" Also drawn: a DESTROY hook task (triggered fine, trigger answered with an error, or dead before the destroy), a critical leave_DEPLOYED "
+            "call failing during the teardown, only the first KILL refused; the verdict 'refused kills => error' is taken from the KILL calls the master "
+            "actually refused; the DESTROY probe ignores the hook task itself. TestKillOutcomes (in process, overlay hook H5): the real task.Manager "
+            "with 2-6 released tasks, any subset of the KILL calls of a KillTasks/Cleanup request refused by the caller: error iff a call was refused, "
+            "reported killed exactly the accepted ones, refused ones still known to the manager."),
+    "C09": (" Race reports count when both conflicting accesses are in the hook machinery; fixed cases for a critical failure at a negative weight of "
+            "enter_/after_ moments (the weights >= 0 of that moment still run)."),
+    "C11": (" TestHooksCollected: hook collections (GetAllHooks / GetHooksMapForTrigger at the root or at a drawn aggregator, after which every call below "
+            "has no opinion) interleaved with task updates, every node compared with the fold after every step; often a group holding nothing but calls."),
+    "C14": " (B) optionally one aggregator level is an include role with defaults/vars of its own (also iterated), its subtree living in a second file.",
+    "C15": " An inner iterator reuses the variable name of an enclosing one in a third of the cases (the nearest binding wins).",
+    "C17": (" Child behaviour also: a command (no shell) naming a binary that does not exist; device outcome also: the device process dies while handling "
+            "the transition."),
+    "C18": (" Restart variants: the first KILL per task refused (at most three tasks); reconciliation answers 1.5 s late, offers 3 s late and a NewEnvironment "
+            "request issued at once, so that the answers arrive while a deployment is in progress (afterwards that environment is all the core knows); "
+            "9-14 tasks per environment with a master that takes 100 ms per KILL call."),
+    "C20": (" Every resolve case is asked again over the REST endpoints (GET .../resolve and the payload route of local.NewHttpService in front of the "
+            "same service) with the same reference."),
+}
+for _k, _v in _ADDENDA.items():
+    CHECKS[_k]["rule"] += _v
